@@ -48,8 +48,10 @@ Theorem bed_fields_roundtrip : forall r line, bed_write r = Ok line ->
   split_all 9 (first_line (line ++ [10])) = bed_std_columns r ++ b_others r.
 Proof.
   intros r line H. unfold bed_write in H. destruct (bed_accepts r) eqn:Ha; [|discriminate].
-  injection H as Hl. subst line. pose proof (bed_columns_clean r Ha) as Hc.
+  pose proof (bed_columns_clean r Ha) as Hc.
+  assert (Hne : bed_std_columns r ++ b_others r <> []) by (unfold bed_std_columns; discriminate).
   set (fs := bed_std_columns r ++ b_others r) in *.
+  assert (Hl : line = join 9 fs) by congruence. subst line.
   assert (Hno : forall c, In c [10; 13] -> ~ In c (join 9 fs)).
   { intros c Hc' Hin. apply In_join in Hin. destruct Hin as [E|(p & Hp & Hcp)].
     - subst c. cbn [In] in Hc'. intuition discriminate.
@@ -58,7 +60,7 @@ Proof.
   unfold first_line. rewrite take_until_app by (apply Hno; cbn; tauto).
   rewrite strip_cr_no13 by (apply Hno; cbn; tauto).
   apply split_all_join.
-  - unfold fs, bed_std_columns. discriminate.
+  - exact Hne.
   - eapply Forall_impl; [|exact Hc]. intros f (H9 & _). exact H9.
 Qed.
 
@@ -89,7 +91,7 @@ Qed.
 Lemma bed_strand_roundtrip : forall s, bed_parse_strand (bed_strand_text s) = Ok s.
 Proof. destruct s as [[]|]; reflexivity. Qed.
 
-(* "." is the BED spelling of a missing name: Some "." reads back as None (documented aliasing) *)
+(* '.' is the BED spelling of a missing name: Some '.' reads back as None (documented aliasing) *)
 Lemma bed_name_roundtrip : forall nm, nm <> Some [46] ->
   bed_parse_name (match nm with Some s => s | None => [46] end) = nm.
 Proof.
